@@ -140,6 +140,10 @@ func NewInjectorParamWithImports(ts []types.Type, isArg bool, pkg string, import
 func collectImportsFromType(t types.Type, pkg string, imports map[string]*Import, referencedImports map[string]*Import, varPool *VarPool) {
 	switch typ := t.(type) {
 	case *types.Named:
+		// the type arguments of a generic instance are written out too
+		for typeArg := range typ.TypeArgs().Types() {
+			collectImportsFromType(typeArg, pkg, imports, referencedImports, varPool)
+		}
 		if objPkg := typ.Obj().Pkg(); objPkg != nil && objPkg.Path() != pkg {
 			pkgPath := objPkg.Path()
 			if imp, exists := imports[pkgPath]; exists {
